@@ -172,6 +172,14 @@ let handle () =
       | Some l -> emit (string_of_int (List.length l));
         List.iter (fun (((n, s), la), lb) -> emit (string_of_z n); emit (string_of_z s);
                     emit (string_of_z la); emit (string_of_z lb)) l)
+   | "L1H" ->
+     let norb = nnat () in
+     let es = nentries () in
+     emit (string_of_z (m_l1 norb es))
+   | "MASS" ->
+     let norb = nnat () in
+     let v = nvec () in
+     emit (string_of_z (m_mass norb v))
    | "TREV" ->
      let v = nvec () in
      List.iter (fun ((a, b), c) -> emit (string_of_n a); emit (string_of_n b); emit (sgz c)) (m_trev v)
@@ -194,6 +202,13 @@ let handle () =
      let nrows = nint () in
      let code = rep nrows (fun () -> let k = nint () in rep k nnat) in
      emit (if unitri code then "1" else "0")
+   | "LINV" ->
+     let n = nnat () in
+     let nrows = nint () in
+     let code = rep nrows (fun () -> let k = nint () in rep k nnat) in
+     let nrows2 = nint () in
+     let dc = rep nrows2 (fun () -> let k = nint () in rep k nnat) in
+     emit (if left_inv dc code n then "1" else "0")
    | "IMPORT" ->
      let norb = nnat () in
      let nrows = nint () in
